@@ -1,1 +1,271 @@
-//! Reference search (filled in later).
+//! Reference search: plain negamax without pruning, ordering, caching or iteration, over the
+//! reference rules, with the engine's own static evaluation at the leaves of the quiescence tree.
+//!
+//!   V(p,d) = Q(p)                                if d = 0
+//!          = LOST (in check) | 0 (stalemate)     if p has no legal move
+//!          = max over legal m of -V(p·m, d-1)    otherwise
+//!   Q(p)   = LOST                                 if in check and no legal move
+//!          = max( eval(p), max over m in T(p) of -Q(p·m) )
+//!   T(p)   = all legal moves if p is in check, else captures ∪ promotions ∪ checking moves
+
+use crate::eng;
+use flsrc::eval::Evaluator;
+use refchess::{Mv, Pos};
+use std::collections::{HashMap, HashSet};
+
+pub const WON: i32 = i32::MAX;
+pub const LOST: i32 = -i32::MAX;
+/// the engine's search window: scores at or beyond it are compared as won / lost
+pub const WINDOW: i32 = 32767;
+/// mate score of the reference alpha-beta quiescence (any value beyond the window)
+pub const MATE: i32 = 2_000_000_000;
+
+pub fn neg(v: i32) -> i32 {
+    -v
+}
+
+/// Class of an engine score: WON, LOST or the exact integer.
+pub fn class(score: i32) -> i32 {
+    if score >= WINDOW {
+        WON
+    } else if score <= -WINDOW {
+        LOST
+    } else {
+        score
+    }
+}
+
+pub fn show(v: i32) -> String {
+    match v {
+        WON => "WON".into(),
+        LOST => "LOST".into(),
+        x => x.to_string(),
+    }
+}
+
+#[derive(Debug, Clone, PartialEq, Eq)]
+pub enum Abort {
+    NodeCap,
+    Cycle,
+    TooDeep,
+}
+
+pub struct RefSearch {
+    pub evaluator: Evaluator,
+    pub qmemo: HashMap<Pos, i32>,
+    pub qab_memo: HashMap<Pos, i32>,
+    /// node budget of one definitional attempt before falling back to alpha-beta
+    pub def_budget: u64,
+    pub leaves_definitional: u64,
+    pub leaves_alphabeta: u64,
+    pub cross_checked: u64,
+    pub cross_check_failure: Option<String>,
+    pub vmemo: HashMap<(Pos, u8), i32>,
+    in_progress: HashSet<Pos>,
+    pub nodes: u64,
+    pub cap: u64,
+    pub max_q_depth: usize,
+    /// repetition rule for C09: positions (by reference identity) that count as a draw when
+    /// they come up below the root
+    pub draw_positions: Option<HashSet<Pos>>,
+}
+
+impl RefSearch {
+    pub fn new(cap: u64) -> RefSearch {
+        RefSearch { evaluator: Evaluator::new(), qmemo: HashMap::new(), qab_memo: HashMap::new(), def_budget: 3_000, leaves_definitional: 0, leaves_alphabeta: 0, cross_checked: 0, cross_check_failure: None, vmemo: HashMap::new(), in_progress: HashSet::new(), nodes: 0, cap, max_q_depth: 600, draw_positions: None }
+    }
+
+    pub fn eval(&mut self, p: &Pos) -> i32 {
+        let b = eng::to_board(p);
+        self.evaluator.evaluate(&b)
+    }
+
+    /// The tactical move set of the property C17 (computed entirely by the reference).
+    pub fn tactical(p: &Pos) -> Vec<Mv> {
+        let legal = p.legal_moves();
+        if p.in_check() {
+            return legal;
+        }
+        legal
+            .into_iter()
+            .filter(|m| {
+                let i = p.info(*m);
+                i.capture || i.promo || p.make(*m).in_check()
+            })
+            .collect()
+    }
+
+    /// Leaf value.  First the definitional quiescence minimax (exact when the quiescence tree
+    /// is finite and small); when that tree has a cycle or is too large, an independent
+    /// full-window fail-hard alpha-beta over the same move sets and evaluation.  Soundness of
+    /// the fallback: whenever an alpha-beta quiescence terminates it has explored a finite
+    /// subtree S, and for every truncation depth k > depth(S) (truncated nodes scored by their
+    /// static evaluation) its result is clamp(minimax(T_k), alpha, beta) whatever the move
+    /// order; so two terminating alpha-beta runs (the engine's and this one) are statements
+    /// about the same number.
+    pub fn q(&mut self, p: &Pos) -> Result<i32, Abort> {
+        if let Some(v) = self.qmemo.get(p) {
+            return Ok(*v);
+        }
+        if let Some(v) = self.qab_memo.get(p) {
+            return Ok(*v);
+        }
+        let saved_cap = self.cap;
+        self.cap = self.cap.min(self.nodes + self.def_budget);
+        let r = self.q_rec(p, 0);
+        self.cap = saved_cap;
+        self.in_progress.clear();
+        match r {
+            Ok(v) => {
+                self.leaves_definitional += 1;
+                // standing self-validation of the fallback: on a sample of the leaves whose
+                // definitional value exists, the alpha-beta reference must give the same number
+                if self.leaves_definitional % 16 == 1 {
+                    let saved = self.cap;
+                    self.cap = self.nodes + 50_000;
+                    let ab = self.q_ab(p, -WINDOW, WINDOW, 0);
+                    self.cap = saved;
+                    if let Ok(raw) = ab {
+                        self.cross_checked += 1;
+                        if class(raw) != v {
+                            self.cross_check_failure = Some(format!("{}: definitional {} vs alpha-beta {}", p.fen4(), show(v), show(class(raw))));
+                        }
+                    }
+                }
+                Ok(v)
+            }
+            Err(_) => {
+                let raw = self.q_ab(p, -WINDOW, WINDOW, 0)?;
+                let v = class(raw);
+                self.leaves_alphabeta += 1;
+                self.qab_memo.insert(p.clone(), v);
+                Ok(v)
+            }
+        }
+    }
+
+    /// Independent fail-hard alpha-beta quiescence (reference rules, engine evaluation).
+    pub fn q_ab(&mut self, p: &Pos, mut alpha: i32, beta: i32, depth: usize) -> Result<i32, Abort> {
+        self.nodes += 1;
+        if self.nodes > self.cap {
+            return Err(Abort::NodeCap);
+        }
+        if depth > 20_000 {
+            return Err(Abort::TooDeep);
+        }
+        let mut moves = Self::tactical(p);
+        if moves.is_empty() && p.in_check() {
+            return Ok(-MATE);
+        }
+        let stand_pat = self.eval(p);
+        if stand_pat >= beta {
+            return Ok(beta);
+        }
+        if stand_pat > alpha {
+            alpha = stand_pat;
+        }
+        // captures of the most valuable victims first (any order is sound)
+        moves.sort_by_key(|m| match p.sq[m.to as usize] {
+            Some((_, k)) => -(k as i32) - 1,
+            None => 0,
+        });
+        for m in moves {
+            let c = p.make(m);
+            let score = -self.q_ab(&c, -beta, -alpha, depth + 1)?;
+            if score >= beta {
+                return Ok(beta);
+            }
+            if score > alpha {
+                alpha = score;
+            }
+        }
+        Ok(alpha)
+    }
+
+    fn q_rec(&mut self, p: &Pos, depth: usize) -> Result<i32, Abort> {
+        if let Some(v) = self.qmemo.get(p) {
+            return Ok(*v);
+        }
+        self.nodes += 1;
+        if self.nodes > self.cap {
+            return Err(Abort::NodeCap);
+        }
+        if depth > self.max_q_depth {
+            return Err(Abort::TooDeep);
+        }
+        if !self.in_progress.insert(p.clone()) {
+            return Err(Abort::Cycle);
+        }
+        let moves = Self::tactical(p);
+        let res = (|| {
+            if moves.is_empty() && p.in_check() {
+                return Ok(LOST);
+            }
+            let mut best = self.eval(p);
+            for m in moves {
+                let c = p.make(m);
+                let v = neg(self.q_rec(&c, depth + 1)?);
+                if v > best {
+                    best = v;
+                }
+            }
+            Ok(best)
+        })();
+        self.in_progress.remove(p);
+        let v = res?;
+        self.qmemo.insert(p.clone(), v);
+        Ok(v)
+    }
+
+    pub fn v(&mut self, p: &Pos, d: u8) -> Result<i32, Abort> {
+        self.v_rec(p, d, true)
+    }
+
+    fn v_rec(&mut self, p: &Pos, d: u8, root: bool) -> Result<i32, Abort> {
+        if !root {
+            if let Some(dr) = &self.draw_positions {
+                if dr.contains(p) {
+                    return Ok(0);
+                }
+            }
+        }
+        if d == 0 {
+            return self.q(p);
+        }
+        if let Some(v) = self.vmemo.get(&(p.clone(), d)) {
+            return Ok(*v);
+        }
+        self.nodes += 1;
+        if self.nodes > self.cap {
+            return Err(Abort::NodeCap);
+        }
+        let legal = p.legal_moves();
+        let v = if legal.is_empty() {
+            if p.in_check() {
+                LOST
+            } else {
+                0
+            }
+        } else {
+            let mut best = LOST;
+            for m in legal {
+                let c = p.make(m);
+                let v = neg(self.v_rec(&c, d - 1, false)?);
+                if v > best {
+                    best = v;
+                }
+            }
+            best
+        };
+        if self.draw_positions.is_none() {
+            self.vmemo.insert((p.clone(), d), v);
+        }
+        Ok(v)
+    }
+
+    /// Value of playing `m` at `p` with `d` plies in total.
+    pub fn move_value(&mut self, p: &Pos, m: Mv, d: u8) -> Result<i32, Abort> {
+        let c = p.make(m);
+        Ok(neg(self.v_rec(&c, d - 1, false)?))
+    }
+}
